@@ -6,6 +6,7 @@ import (
 	"os"
 	"runtime"
 	"sync"
+	"sync/atomic"
 
 	"verif/harness/ev"
 	"verif/harness/ledger"
@@ -142,7 +143,10 @@ func exploreAll(run *ev.Run, us []*ledger.Universe, cfg txgraph.Config) totals {
 	var tot totals
 	var mu sync.Mutex
 	cappedUniverses := 0
+	var reported int64
+	cfg.Abort = func() bool { return atomic.LoadInt64(&reported) >= 3000 }
 	report := func(prop, sig, msg string, u *ledger.Universe, hist []ledger.Event) {
+		atomic.AddInt64(&reported, 1)
 		if prop != run.Prop {
 			// a side oracle of another property fired: report it under the
 			// property being checked only if it is that property's clause.
@@ -211,7 +215,7 @@ func exploreAll(run *ev.Run, us []*ledger.Universe, cfg txgraph.Config) totals {
 		// exploration keeps hitting the per-universe violation/state cap is not
 		// explored further (reported as not exhaustive)
 		mu.Lock()
-		stop := cappedUniverses >= 64
+		stop := cappedUniverses >= 64 || cfg.Abort()
 		mu.Unlock()
 		if stop {
 			break
